@@ -129,6 +129,7 @@ def run(res: Results, idx: Index, tier: str) -> None:
     rule_g(res, idx)
     rule_h(res, idx, facts)
     rule_i(res, idx, facts)
+    rule_j(res, idx)
     from .c03 import inherited_settings
     res.rule("R-C11f", "nested Loop / If / function scopes inherit the requested opset from an attribute that exists", floor=1)
     for site, key, status, detail, func, setting in inherited_settings(idx):
@@ -515,3 +516,62 @@ def rule_i(res: Results, idx: Index, facts: OpsetFacts) -> None:
                     res.violation("R-C11i", site, key, f"`{src(b, 80)}` switches to a Range in the narrow float type for every extent: beyond 2**11 (float16) / 2**8 (bfloat16) elements the limit and the indices are "
                                   "not representable — iota / arange of 2051 float16 elements returns 2052 at opset 27 and 2051 at opset 23", fi.qualname)
     res.analysed["native_range_switches"] = n
+
+
+# ---------------------------------------------------------------------------------------------- R-C11j
+TRAILING_AXES_OPS = {"LayerNormalization", "RMSNormalization"}  # `axis=k` means "normalise over k .. rank-1"
+
+
+def rule_j(res: Results, idx: Index) -> None:
+    """`LayerNormalization(axis=k)` / `RMSNormalization(axis=k)` normalise over ALL axes k..rank-1.  A lowering whose primitive
+    normalises along one axis (its decomposed sibling reduces over `[axis]`) computes the same function with the native operator
+    only when that axis is the last one, so the native emission has to be guarded by `axis == rank - 1` (else the opset at which
+    the native operator becomes available changes the function: nnx.RMSNorm over axis 1 of a rank-3 input, opset 22 vs 23)."""
+    from ..guards import path_conditions
+    from ..flow import defuse, names_in
+    res.rule("R-C11j", "native normalisation operators whose `axis` means axis..rank-1 are emitted for a single-axis primitive only when the axis is the last one", floor=3)
+    n = 0
+    for m in idx.product_modules():
+        if "/plugins/" not in m.rel:
+            continue
+        for fi in m.funcs.values():
+            for c in walk_no_nested(fi.node):
+                if not (isinstance(c, ast.Call) and isinstance(c.func, ast.Attribute) and c.func.attr in TRAILING_AXES_OPS and "builder" in src(c.func.value, 40)):
+                    continue
+                n += 1
+                op = c.func.attr
+                key = f"{m.rel}::{fi.qualname}::trailing-axes::{op}"
+                site = f"{m.rel}:{c.lineno}"
+                axis_kw = next((kw.value for kw in c.keywords if kw.arg == "axis"), None)
+                if axis_kw is None or (isinstance(axis_kw, ast.Constant) and axis_kw.value == -1) or (isinstance(axis_kw, ast.UnaryOp) and src(axis_kw, 5) == "-1"):
+                    res.ok("R-C11j", site, key, "axis is the last one (literal / operator default)", fi.qualname)
+                    continue
+                anames = names_in(axis_kw)
+                conds = path_conditions(c)
+
+                def last_axis_test(e: ast.AST) -> bool:
+                    if not (isinstance(e, ast.Compare) and len(e.ops) == 1 and isinstance(e.ops[0], ast.Eq)):
+                        return False
+                    sides = [e.left, e.comparators[0]]
+                    for a, b in (sides, sides[::-1]):
+                        if names_in(a) & anames and isinstance(b, ast.BinOp) and isinstance(b.op, ast.Sub) and isinstance(b.right, ast.Constant) and b.right.value == 1:
+                            return True
+                    return False
+
+                if any(want and last_axis_test(e) for e, want in conds):
+                    res.ok("R-C11j", site, key, "the emission is guarded by `axis == rank - 1`", fi.qualname)
+                    continue
+                du = defuse(fi.node)
+                defs_src = " ".join(src(d.value, 120) for nm in anames for d in du.defs.get(nm, []) if getattr(d, "value", None) is not None)
+                if "len(" in defs_src and defs_src.count("len(") >= 2 and "-" in defs_src:
+                    res.ok("R-C11j", site, key, "axis = rank(x) - rank(scale): the scale operand spans exactly the trailing block that is normalised", fi.qualname)
+                    continue
+                # a decomposed sibling in the same function that reduces over the single axis
+                single = [r for r in walk_no_nested(fi.node) if isinstance(r, ast.Call) and isinstance(r.func, ast.Attribute) and r.func.attr in ("ReduceMean", "ReduceSum", "ReduceSumSquare", "ReduceL2")]
+                one_axis = any(isinstance(l, ast.List) and len(l.elts) == 1 and names_in(l.elts[0]) & anames for l in ast.walk(fi.node))
+                if single and one_axis:
+                    res.violation("R-C11j", site, key, f"`{op}(axis={src(axis_kw, 20)})` normalises over axis..rank-1, the decomposed path of the same lowering reduces over `[{src(axis_kw, 20)}]` alone, and nothing "
+                                  "restricts the native path to the last axis: the two opset ranges export different functions for every other axis", fi.qualname)
+                else:
+                    res.unresolved("R-C11j", site, key, f"`{op}(axis={src(axis_kw, 20)})`: whether the axes the library normalises are exactly the trailing block axis..rank-1 is not decided", fi.qualname)
+    res.analysed["trailing_axes_emissions"] = n
